@@ -59,6 +59,8 @@ package util
 // member is one of the four SDP type names and its "sdp" member is a string - ANY string, the empty one included -
 // the description is accepted with exactly that text.
 //@   ensures {accepts-every-well-typed-object} jsonOK && has(parsed, "type") && has(parsed, "sdp") && tagis(parsed["type"], string) && tagis(parsed["sdp"], string) && (unbox(parsed["type"], string) == "offer" || unbox(parsed["type"], string) == "pranswer" || unbox(parsed["type"], string) == "answer" || unbox(parsed["type"], string) == "rollback") ==> err == nil && desc.SDP == unbox(parsed["sdp"], string)
+//@   ensures {type-names-map-to-the-pion-constants} err == nil ==> (unbox(parsed["type"], string) == "offer" ==> desc.Type == webrtc.SDPTypeOffer) && (unbox(parsed["type"], string) == "pranswer" ==> desc.Type == webrtc.SDPTypePranswer) && (unbox(parsed["type"], string) == "answer" ==> desc.Type == webrtc.SDPTypeAnswer) && (unbox(parsed["type"], string) == "rollback" ==> desc.Type == webrtc.SDPTypeRollback)
+//@   ensures {unknown-type-names-rejected} jsonOK && has(parsed, "type") && tagis(parsed["type"], string) && unbox(parsed["type"], string) != "offer" && unbox(parsed["type"], string) != "pranswer" && unbox(parsed["type"], string) != "answer" && unbox(parsed["type"], string) != "rollback" ==> err != nil
 //@   after call Unmarshal ghost jsonOK = ret0 == nil
 //
 //@ ghost var jsonOK bool
